@@ -89,14 +89,15 @@ def run_final(ix, case, tx):
         kw["compound"] = False
     w = ix.writer(**kw)
     if case["schema_change"] == "add":
-        w.add_field("x", fields.KEYWORD(stored=True))
+        # (a name with a character outside [A-Za-z0-9_] ends up in the names of the field's per-document files)
+        w.add_field("x-tra", fields.KEYWORD(stored=True, scorable=True, sortable=True))
     elif case["schema_change"] == "remove":
         w.remove_field("w")
     for op in tx["ops"]:
         if op[0] == "add":
             kwd = corpus.doc_kwargs(op[1])
             if case["schema_change"] == "add":
-                kwd["x"] = u"extra"
+                kwd["x-tra"] = u"extra more"
             if case["schema_change"] == "remove":
                 kwd.pop("w", None)
             w.add_document(**kwd)
